@@ -32,3 +32,38 @@ theorem Timer.WF_advance (tm : Timer) (h : tm.WF) :
 @[simp] theorem argmin_singleton (f : α → Int) (x : α) : argmin f [x] = 0 := rfl
 
 end SV
+
+namespace SV
+/-- first due instant of any non-cyclic timer (shared by C01, C02, C03) -/
+theorem C01_first_due_aux (tm : Timing) (hc : tm.isCyclic = false) (hv : tm.valid) (start : DT)
+    (ha : start.off.isSome = tm.off.isSome) (skip : Bool) :
+    IsLeastAfter (Occ tm) start.inst (Timer.init tm start skip).next.inst := by
+  unfold Timer.init
+  rw [Timer.calcNext_none _ hc]
+  exact advance_least tm hv hc start ha
+theorem Job.create_ok (tz : Option Int) (ts : List Timing) (start stop : Option DT)
+    (delay skip : Bool) (m : Int) (clock : Int) (j : Job)
+    (h : Job.create tz ts start stop delay skip m clock = .ok j) :
+    ∃ s, startStop tz start stop clock = .ok s ∧ j = Job.build (ts.map standardize) s stop delay skip m ∧
+      timingTzOk tz (ts.map standardize) = true ∧ uniqueOk tz (ts.map standardize) = true ∧
+      (ts.map standardize) ≠ [] := by
+  unfold Job.create at h
+  simp only [] at h
+  split at h
+  · cases h
+  · by_cases h1 : timingTzOk tz (List.map standardize ts) = true
+    · by_cases h2 : uniqueOk tz (List.map standardize ts) = true
+      · simp only [h1, h2, Bool.not_true, Bool.false_eq_true, if_false] at h
+        cases hs : startStop tz start stop clock with
+        | error e => rw [hs] at h; cases h
+        | ok s =>
+            rw [hs] at h
+            by_cases h3 : (List.map standardize ts).isEmpty = true
+            · simp [h3] at h
+            · simp only [h3] at h
+              cases h
+              exact ⟨s, rfl, rfl, h1, h2, by simpa using h3⟩
+      · simp [h1, h2] at h
+    · simp [h1] at h
+
+end SV
